@@ -356,7 +356,7 @@ theorem construct_validates (name : Str) (fs : List Field) (kw : List (Str × PV
   | ok items => exact ctorFields_validates fs kw items hc
 
 /-- **ctor_revalidation_noop**: the call `cls(**items)` that ends `_parse_config_struct` validates the already parsed
-items once more (tuples as tuples, nested instances through `dataclasses.asdict`). For a well-formed structure type and
+items once more (tuples as tuples, a nested instance through its own `init=True` items). For a well-formed structure type and
 JSON data this second validation cannot fail and stores the items unchanged — so modelling it as "build the instance"
 (`structResult`) is faithful. -/
 theorem ctor_revalidation_noop (name : Str) (fs : List Field) (hw : wf (.struct name fs) = true)
